@@ -1234,6 +1234,14 @@ fn client_emission_parity() -> Result<String, String> {
     for _ in 0..2 {
         want.push(shape(&repe::Message::builder().query_str("/tb").query_format(repe::QueryFormat::JsonPointer).body_beve(&val).unwrap().build()));
     }
+    // the remaining wrappers: call_message(_with_timeout), call_with_formats_and_timeout, call_json_with_timeout, notify_typed_json / _beve
+    for _ in 0..2 {
+        want.push(shape(&repe::Message::builder().query_str("/m").query_format(repe::QueryFormat::JsonPointer).body_format(repe::BodyFormat::RawBinary).build()));
+    }
+    want.push(shape(&repe::Message::builder().query_str("/cf").query_format_code(1).body_format_code(2).body_bytes(b"[7]".to_vec()).build()));
+    want.push(shape(&repe::Message::builder().query_str("/jt").query_format(repe::QueryFormat::JsonPointer).body_json(&val).unwrap().build()));
+    want.push(shape(&repe::Message::builder().notify(true).query_str("/ntj").query_format(repe::QueryFormat::JsonPointer).body_json(&val).unwrap().build()));
+    want.push(shape(&repe::Message::builder().notify(true).query_str("/ntb").query_format(repe::QueryFormat::JsonPointer).body_beve(&val).unwrap().build()));
     want.push(shape(&repe::Message::builder().query_str("/j").query_format(repe::QueryFormat::JsonPointer).body_json(&val).unwrap().build()));
     want.push(shape(&repe::Message::builder().notify(true).query_str("/nj").query_format(repe::QueryFormat::JsonPointer).body_json(&val).unwrap().build()));
     let mut seen: Vec<(&str, Vec<Frame>)> = Vec::new();
@@ -1275,6 +1283,35 @@ fn client_emission_parity() -> Result<String, String> {
                     let _ = rt.block_on(wclient.call_typed_json_with_timeout::<_, _, Value>("/tj", &val, t));
                     let _ = rt.block_on(wclient.call_typed_beve::<_, _, Value>("/tb", &val));
                     let _ = rt.block_on(wclient.call_typed_beve_with_timeout::<_, _, Value>("/tb", &val, t));
+                }
+            }
+        }
+        {
+            let t = Duration::from_secs(30);
+            match which {
+                "blocking" => {
+                    let _ = client.call_message("/m");
+                    let _ = client.call_message_with_timeout("/m", t);
+                    let _ = client.call_with_formats_and_timeout("/cf", 1, Some(b"[7]"), 2, t);
+                    let _ = client.call_json_with_timeout("/jt", &val, t);
+                    client.notify_typed_json("/ntj", &val).map_err(e)?;
+                    client.notify_typed_beve("/ntb", &val).map_err(e)?;
+                }
+                "async" => {
+                    let _ = rt.block_on(aclient.call_message("/m"));
+                    let _ = rt.block_on(aclient.call_message_with_timeout("/m", t));
+                    let _ = rt.block_on(aclient.call_with_formats_and_timeout("/cf", 1, Some(b"[7]"), 2, t));
+                    let _ = rt.block_on(aclient.call_json_with_timeout("/jt", &val, t));
+                    rt.block_on(aclient.notify_typed_json("/ntj", &val)).map_err(e)?;
+                    rt.block_on(aclient.notify_typed_beve("/ntb", &val)).map_err(e)?;
+                }
+                _ => {
+                    let _ = rt.block_on(wclient.call_message("/m"));
+                    let _ = rt.block_on(wclient.call_message_with_timeout("/m", t));
+                    let _ = rt.block_on(wclient.call_with_formats_and_timeout("/cf", 1, Some(b"[7]"), 2, t));
+                    let _ = rt.block_on(wclient.call_json_with_timeout("/jt", &val, t));
+                    rt.block_on(wclient.notify_typed_json("/ntj", &val)).map_err(e)?;
+                    rt.block_on(wclient.notify_typed_beve("/ntb", &val)).map_err(e)?;
                 }
             }
         }
